@@ -2,7 +2,8 @@
 //! regions of vault rows, event records and external file blobs, and every
 //! removal of a vault, log or blob, is flagged by the integrity reports.
 //!
-//! Accounts are built with real API calls on both backends; the byte
+//! Several account variants (different histories, hence different storage
+//! shapes) are built with real API calls on both backends; the byte
 //! ranges are computed by this engine's own parser of the file formats
 //! and cross-checked against the repository's `FormatStream`. Every
 //! mutation is applied one at a time to a private copy of the data
@@ -19,7 +20,8 @@ use sos_backend::BackendTarget;
 use sos_client_storage::{AccessOptions, NewFolderOptions};
 use sos_core::{
     constants::{FOLDER_EVENT_LOG_IDENTITY, VAULT_IDENTITY},
-    AccountId, ExternalFile, SecretId,
+    crypto::{AccessKey, Cipher},
+    AccountId, ExternalFile, SecretId, VaultFlags,
 };
 use sos_filesystem::formats::{
     EventLogRecord, FileItem, FormatStream, FormatStreamIterator, VaultRecord,
@@ -112,6 +114,10 @@ fn mutate(name: &str, b: u8) -> u8 {
 struct Built {
     dir: String,
     backend: Backend,
+    /// which history produced the account (see `VARIANTS`)
+    variant: u8,
+    /// account password after the history
+    password: String,
     account_id: String,
     /// (folder id, name) in list_folders order
     folders: Vec<(String, String)>,
@@ -342,7 +348,27 @@ fn blob_offsets(len: u64, tier: Tier) -> Vec<u64> {
     s
 }
 
-async fn build(dir: &Path, backend: Backend, tier: Tier, seed: u64) -> Result<Built> {
+/// Account variants: the history that produces the account.
+const VARIANTS: [&str; 3] = [
+    "v0: default + archive + folder-one; note/login/card/link created, one note updated, the link deleted, a 20 KiB file secret in the default folder, a small file attached to the login in folder-one",
+    "v1: the v0 history, then compact_folder(default), change_folder_password(folder-one), the note archived, folder-one renamed + description set + flags updated",
+    "v2: folder-one created, given a note and a file secret, then deleted; a second user folder with cipher AES-GCM-256 holding a login (with a small file attached) and a card; a note and a 20 KiB file secret in the default folder; change_account_password",
+];
+
+/// Quick tier on the variants after the first: first / middle / last
+/// position of a region only.
+fn sample(all: Vec<u64>, every: bool) -> Vec<u64> {
+    if every || all.len() <= 3 {
+        return all;
+    }
+    vec![all[0], all[all.len() / 2], all[all.len() - 1]]
+}
+
+fn secret_string(s: &str) -> secrecy::SecretString {
+    secrecy::SecretString::new(s.to_string().into())
+}
+
+async fn build(dir: &Path, backend: Backend, variant: u8, tier: Tier, seed: u64) -> Result<Built> {
     let content = dir.join("content");
     std::fs::create_dir_all(&content)?;
     let large = content.join("large.bin");
@@ -352,29 +378,66 @@ async fn build(dir: &Path, backend: Backend, tier: Tier, seed: u64) -> Result<Bu
     let adir = dir.join("acct");
     let mut dev = Dev::create(&adir, backend, "integx-account", true).await?;
     let default = dev.account.default_folder().await.ok_or_else(|| anyhow!("no default folder"))?;
-    let f1 = dev.account.create_folder(NewFolderOptions::new("folder-one".to_string())).await?.folder;
     let opt = |f: &Summary| AccessOptions { folder: Some(*f.id()), ..Default::default() };
-    let (m, s) = vkit::gen::secret("note", 0, "n0");
-    let n0 = dev.account.create_secret(m, s, opt(&default)).await?.id;
-    let (m, s) = vkit::gen::secret("login", 1, "l0");
-    let l0 = dev.account.create_secret(m, s, opt(&f1)).await?.id;
-    let (m, s) = vkit::gen::secret("card", 0, "c0");
-    dev.account.create_secret(m, s, opt(&default)).await?;
-    let (m, s) = vkit::gen::secret("link", 0, "k0");
-    let k0 = dev.account.create_secret(m, s, opt(&f1)).await?.id;
-    // an update and a delete so logs hold all three secret event kinds
-    let (m, s) = vkit::gen::secret("note", 1, "n0b");
-    dev.account.update_secret(&n0, m, Some(s), opt(&default)).await?;
-    dev.account.delete_secret(&k0, opt(&f1)).await?;
-    // external files: a 20 KiB file secret and a small attachment
-    let secret: Secret = large.clone().try_into()?;
-    let meta = SecretMeta::new("large-file".to_string(), secret.kind());
-    dev.account.create_secret(meta, secret, opt(&default)).await?;
-    let (mut row, _) = dev.account.read_secret(&l0, Some(f1.id())).await?;
-    let asecret: Secret = small.clone().try_into()?;
-    let ameta = SecretMeta::new("small-attachment".to_string(), asecret.kind());
-    row.secret_mut().add_field(SecretRow::new(SecretId::new_v4(), ameta, asecret));
-    dev.account.update_secret(&l0, row.meta().clone(), Some(row.secret().clone()), opt(&f1)).await?;
+    let mut password = vkit::acct::PASSWORD.to_string();
+    let file_secret = |p: &Path, label: &str| -> Result<(SecretMeta, Secret)> {
+        let secret: Secret = p.to_path_buf().try_into()?;
+        Ok((SecretMeta::new(label.to_string(), secret.kind()), secret))
+    };
+    if variant <= 1 {
+        let f1 = dev.account.create_folder(NewFolderOptions::new("folder-one".to_string())).await?.folder;
+        let (m, s) = vkit::gen::secret("note", 0, "n0");
+        let n0 = dev.account.create_secret(m, s, opt(&default)).await?.id;
+        let (m, s) = vkit::gen::secret("login", 1, "l0");
+        let l0 = dev.account.create_secret(m, s, opt(&f1)).await?.id;
+        let (m, s) = vkit::gen::secret("card", 0, "c0");
+        dev.account.create_secret(m, s, opt(&default)).await?;
+        let (m, s) = vkit::gen::secret("link", 0, "k0");
+        let k0 = dev.account.create_secret(m, s, opt(&f1)).await?.id;
+        // an update and a delete so logs hold all three secret event kinds
+        let (m, s) = vkit::gen::secret("note", 1, "n0b");
+        dev.account.update_secret(&n0, m, Some(s), opt(&default)).await?;
+        dev.account.delete_secret(&k0, opt(&f1)).await?;
+        // external files: a 20 KiB file secret and a small attachment
+        let (meta, secret) = file_secret(&large, "large-file")?;
+        dev.account.create_secret(meta, secret, opt(&default)).await?;
+        let (mut row, _) = dev.account.read_secret(&l0, Some(f1.id())).await?;
+        let (ameta, asecret) = file_secret(&small, "small-attachment")?;
+        row.secret_mut().add_field(SecretRow::new(SecretId::new_v4(), ameta, asecret));
+        dev.account.update_secret(&l0, row.meta().clone(), Some(row.secret().clone()), opt(&f1)).await?;
+        if variant == 1 {
+            dev.account.compact_folder(default.id()).await?;
+            dev.account.change_folder_password(f1.id(), AccessKey::Password(secret_string("integx-second-folder-password-long-enough"))).await?;
+            dev.account.archive(default.id(), &n0, Default::default()).await?;
+            dev.account.rename_folder(f1.id(), "folder-one-renamed".to_string()).await?;
+            dev.account.set_folder_description(f1.id(), "a description set by integx").await?;
+            dev.account.update_folder_flags(f1.id(), VaultFlags::NO_SYNC).await?;
+        }
+    } else {
+        // a folder that held a file secret and was deleted
+        let f1 = dev.account.create_folder(NewFolderOptions::new("folder-one".to_string())).await?.folder;
+        let (m, s) = vkit::gen::secret("note", 0, "gone");
+        dev.account.create_secret(m, s, opt(&f1)).await?;
+        let (meta, secret) = file_secret(&small, "small-file-in-deleted-folder")?;
+        dev.account.create_secret(meta, secret, opt(&f1)).await?;
+        dev.account.delete_folder(f1.id()).await?;
+        // a user folder with the other cipher
+        let aes = dev.account.create_folder(NewFolderOptions { cipher: Some(Cipher::AesGcm256), ..NewFolderOptions::new("aes-folder".to_string()) }).await?.folder;
+        let (m, s) = vkit::gen::secret("login", 1, "l0");
+        let l0 = dev.account.create_secret(m, s, opt(&aes)).await?.id;
+        let (m, s) = vkit::gen::secret("card", 0, "c0");
+        dev.account.create_secret(m, s, opt(&aes)).await?;
+        let (mut row, _) = dev.account.read_secret(&l0, Some(aes.id())).await?;
+        let (ameta, asecret) = file_secret(&small, "small-attachment")?;
+        row.secret_mut().add_field(SecretRow::new(SecretId::new_v4(), ameta, asecret));
+        dev.account.update_secret(&l0, row.meta().clone(), Some(row.secret().clone()), opt(&aes)).await?;
+        let (m, s) = vkit::gen::secret("note", 0, "n0");
+        dev.account.create_secret(m, s, opt(&default)).await?;
+        let (meta, secret) = file_secret(&large, "large-file")?;
+        dev.account.create_secret(meta, secret, opt(&default)).await?;
+        dev.account.change_account_password(secret_string(vkit::acct::PASSWORD2)).await?;
+        password = vkit::acct::PASSWORD2.to_string();
+    }
 
     let summaries = dev.account.list_folders().await?;
     let files: IndexSet<ExternalFile> = dev.account.canonical_files().await?;
@@ -388,6 +451,9 @@ async fn build(dir: &Path, backend: Backend, tier: Tier, seed: u64) -> Result<Bu
     if summaries.len() < 2 || nsecrets < 3 || files.len() < 2 {
         return Err(anyhow!("built account too small: {} folders {} secrets {} files", summaries.len(), nsecrets, files.len()));
     }
+    // quick: every byte on variant 0 (as before), first / middle / last
+    // byte of every region on the other variants; thorough: every byte
+    let every = tier == Tier::Thorough || variant == 0;
 
     let mut targets: Vec<Target> = vec![];
     let mut cross = 0u64;
@@ -402,7 +468,8 @@ async fn build(dir: &Path, backend: Backend, tier: Tier, seed: u64) -> Result<Bu
         let len = std::fs::metadata(&p).map_err(|e| anyhow!("blob {}: {}", p.display(), e))?.len();
         let label = if len > 4096 { have_large = true; "large_blob" } else { have_small = true; "small_blob" };
         file_list.push((f.to_string(), len));
-        for o in blob_offsets(len, tier) {
+        let offs = if variant == 0 { blob_offsets(len, tier) } else { sample((0..len).collect(), every) };
+        for o in offs {
             let mut t = Target::blank("fs_byte", "blob_byte");
             t.detail = label.into();
             t.file = rel(&adir, &p)?;
@@ -425,6 +492,7 @@ async fn build(dir: &Path, backend: Backend, tier: Tier, seed: u64) -> Result<Bu
         Backend::Fs => {
             let mut vault_rows = 0usize;
             let mut event_rows = 0usize;
+            let mut nonce_sizes: HashSet<u64> = HashSet::new();
             for (fi, s) in summaries.iter().enumerate() {
                 let fid = s.id().to_string();
                 let vp = paths.vault_path(s.id());
@@ -444,15 +512,16 @@ async fn build(dir: &Path, backend: Backend, tier: Tier, seed: u64) -> Result<Bu
                     targets.push(t);
                 };
                 for (ri, r) in rows.iter().enumerate() {
-                    for o in r.commit.clone() {
+                    for o in sample(r.commit.clone().collect(), every) {
                         push("vault_row.commit_hash", true, o, format!("F{}/row{}/commit+{}", fi, ri, o - r.commit.start), &vrel);
                     }
                     for (nm, a) in [("meta", &r.meta), ("secret", &r.secret)] {
-                        for o in a.nonce.clone().chain(a.ciphertext.clone()) {
+                        nonce_sizes.insert(a.nonce.end - a.nonce.start);
+                        for o in sample(a.nonce.clone().chain(a.ciphertext.clone()).collect(), every) {
                             push(&format!("vault_row.{}", nm), true, o, format!("F{}/row{}/{}@{}", fi, ri, nm, o - r.value.start), &vrel);
                         }
-                        for o in a.framing.iter() {
-                            push(&format!("vault_row.{}_framing", nm), false, *o, format!("F{}/row{}/{}framing@{}", fi, ri, nm, o - r.value.start), &vrel);
+                        for o in sample(a.framing.clone(), every) {
+                            push(&format!("vault_row.{}_framing", nm), false, o, format!("F{}/row{}/{}framing@{}", fi, ri, nm, o - r.value.start), &vrel);
                         }
                     }
                 }
@@ -462,13 +531,13 @@ async fn build(dir: &Path, backend: Backend, tier: Tier, seed: u64) -> Result<Bu
                 event_rows += erows.len();
                 let erel = rel(&adir, &ep)?;
                 for (ri, r) in erows.iter().enumerate() {
-                    for o in r.commit.clone() {
+                    for o in sample(r.commit.clone().collect(), every) {
                         push("event_record.commit_hash", true, o, format!("F{}/ev{}/commit+{}", fi, ri, o - r.commit.start), &erel);
                     }
-                    for o in r.value.clone() {
+                    for o in sample(r.value.clone().collect(), every) {
                         push("event_record.payload", true, o, format!("F{}/ev{}/payload+{}", fi, ri, o - r.value.start), &erel);
                     }
-                    for o in r.last_commit.clone() {
+                    for o in sample(r.last_commit.clone().collect(), every) {
                         push("event_record.last_commit", false, o, format!("F{}/ev{}/last+{}", fi, ri, o - r.last_commit.start), &erel);
                     }
                 }
@@ -482,59 +551,70 @@ async fn build(dir: &Path, backend: Backend, tier: Tier, seed: u64) -> Result<Bu
             }
             stats.insert("vault_rows".into(), json!(vault_rows));
             stats.insert("event_records".into(), json!(event_rows));
+            let mut ns: Vec<u64> = nonce_sizes.into_iter().collect();
+            ns.sort();
+            stats.insert("nonce_sizes_in_vault_rows".into(), json!(ns));
         }
         Backend::Db => {
             let target = target_for(&adir, Backend::Db).await?;
             let BackendTarget::Database(_, client) = &target else { return Err(anyhow!("not a database target")) };
             let ids: Vec<String> = folders.iter().map(|f| f.0.clone()).collect();
             let ids2 = ids.clone();
-            type Rows = Vec<(i64, String, Vec<u64>)>;
+            // (row id, folder identifier, folder name, cell lengths)
+            type Rows = Vec<(i64, String, String, Vec<u64>)>;
             let (srows, erows): (Rows, Rows) = client
                 .conn(move |c| {
-                    let mut s = c.prepare("SELECT s.secret_id, f.identifier, length(s.commit_hash), length(s.meta), length(s.secret) FROM folder_secrets s JOIN folders f ON f.folder_id = s.folder_id ORDER BY s.secret_id")?;
-                    let sr: Vec<(i64, String, Vec<u64>)> = s
-                        .query_map([], |r| Ok((r.get::<_, i64>(0)?, r.get::<_, String>(1)?, vec![r.get::<_, i64>(2)? as u64, r.get::<_, i64>(3)? as u64, r.get::<_, i64>(4)? as u64])))?
+                    let mut s = c.prepare("SELECT s.secret_id, f.identifier, f.name, length(s.commit_hash), length(s.meta), length(s.secret) FROM folder_secrets s JOIN folders f ON f.folder_id = s.folder_id ORDER BY s.secret_id")?;
+                    let sr: Rows = s
+                        .query_map([], |r| Ok((r.get::<_, i64>(0)?, r.get::<_, String>(1)?, r.get::<_, String>(2)?, vec![r.get::<_, i64>(3)? as u64, r.get::<_, i64>(4)? as u64, r.get::<_, i64>(5)? as u64])))?
                         .collect::<std::result::Result<_, _>>()?;
-                    let mut e = c.prepare("SELECT e.event_id, f.identifier, length(e.commit_hash), length(e.event) FROM folder_events e JOIN folders f ON f.folder_id = e.folder_id ORDER BY e.event_id")?;
-                    let er: Vec<(i64, String, Vec<u64>)> = e
-                        .query_map([], |r| Ok((r.get::<_, i64>(0)?, r.get::<_, String>(1)?, vec![r.get::<_, i64>(2)? as u64, r.get::<_, i64>(3)? as u64])))?
+                    let mut e = c.prepare("SELECT e.event_id, f.identifier, f.name, length(e.commit_hash), length(e.event) FROM folder_events e JOIN folders f ON f.folder_id = e.folder_id ORDER BY e.event_id")?;
+                    let er: Rows = e
+                        .query_map([], |r| Ok((r.get::<_, i64>(0)?, r.get::<_, String>(1)?, r.get::<_, String>(2)?, vec![r.get::<_, i64>(3)? as u64, r.get::<_, i64>(4)? as u64])))?
                         .collect::<std::result::Result<_, _>>()?;
                     Ok((sr, er))
                 })
                 .await?;
             close_target(&target).await;
-            let positions = |len: u64| -> Vec<u64> {
-                if len == 0 {
-                    return vec![];
-                }
-                if tier == Tier::Thorough {
-                    return (0..len).collect();
-                }
-                let mut v = vec![0, len / 2, len - 1];
-                v.dedup();
-                v
-            };
+            // variant 0 quick keeps first / middle / last of every cell
+            let every_db = tier == Tier::Thorough;
             let mut nsec = 0;
             let mut nev = 0;
+            let mut system: BTreeMap<String, (String, u64, u64)> = BTreeMap::new();
             for (table, region, cols, rows) in [
                 ("folder_secrets", "secret_row", vec!["commit_hash", "meta", "secret"], &srows),
                 ("folder_events", "event_row", vec!["commit_hash", "event"], &erows),
             ] {
                 let mut per_folder: BTreeMap<String, usize> = BTreeMap::new();
-                for (rowid, fid, lens) in rows.iter() {
-                    // only the account's folders (not the identity / device vaults)
-                    let Some(fi) = ids2.iter().position(|x| x == fid) else { continue };
+                for (rowid, fid, fname, lens) in rows.iter() {
                     let ri = *per_folder.entry(fid.clone()).and_modify(|n| *n += 1).or_insert(0);
-                    if table == "folder_secrets" { nsec += 1 } else { nev += 1 }
+                    // the account's folders as list_folders returns them
+                    // are what an application hands to account_integrity;
+                    // the identity (login) and device folders of the
+                    // account live in the same tables but are not part of
+                    // that list: mutated too, recorded as observations
+                    let (in_scope, fkey, rname) = match ids2.iter().position(|x| x == fid) {
+                        Some(fi) => {
+                            if table == "folder_secrets" { nsec += 1 } else { nev += 1 }
+                            (true, format!("F{}", fi), region.to_string())
+                        }
+                        None => {
+                            let tag: String = fname.chars().map(|c| if c.is_ascii_alphanumeric() { c.to_ascii_lowercase() } else { '_' }).collect();
+                            let e = system.entry(fid.clone()).or_insert_with(|| (fname.clone(), 0, 0));
+                            if table == "folder_secrets" { e.1 += 1 } else { e.2 += 1 }
+                            (false, format!("SYS[{}]", tag), format!("system_folder[{}].{}", tag, region))
+                        }
+                    };
                     for (ci, col) in cols.iter().enumerate() {
-                        for pos in positions(lens[ci]) {
-                            let mut t = Target::blank("db_cell", &format!("{}.{}", region, col));
+                        for pos in sample((0..lens[ci]).collect(), every_db) {
+                            let mut t = Target::blank("db_cell", &format!("{}.{}", rname, col));
+                            t.in_scope = in_scope;
                             t.table = table.into();
                             t.column = col.to_string();
                             t.rowid = *rowid;
                             t.offset = pos;
                             t.folder = Some(fid.clone());
-                            t.coord = format!("F{}/{}{}/{}+{}", fi, region, ri, col, pos);
+                            t.coord = format!("{}/{}{}/{}+{}", fkey, region, ri, col, pos);
                             targets.push(t);
                         }
                     }
@@ -551,17 +631,21 @@ async fn build(dir: &Path, backend: Backend, tier: Tier, seed: u64) -> Result<Bu
             }
             stats.insert("secret_rows".into(), json!(nsec));
             stats.insert("event_rows".into(), json!(nev));
+            stats.insert("system_folders_(identity,_device)_rows".into(), json!(system.values().map(|v| json!({"name": v.0, "secret_rows": v.1, "event_rows": v.2})).collect::<Vec<_>>()));
         }
     }
     // distinct targets only
     let mut seen = HashSet::new();
     targets.retain(|t| seen.insert((t.kind.clone(), t.region.clone(), t.file.clone(), t.offset, t.table.clone(), t.column.clone(), t.rowid, t.folder.clone())));
-    stats.insert("folders".into(), json!(folders.len()));
+    stats.insert("folders".into(), json!(folders.iter().map(|f| f.1.clone()).collect::<Vec<_>>()));
     stats.insert("secrets".into(), json!(nsecrets));
     stats.insert("external_files".into(), json!(file_list));
+    stats.insert("positions".into(), json!(if tier == Tier::Thorough { "every byte of every region" } else if variant == 0 { "every byte of vault rows and event records (fs), sampled 20 KiB blob, first / middle / last of sqlite cells" } else { "first / middle / last byte of every region" }));
     Ok(Built {
         dir: adir.to_string_lossy().to_string(),
         backend,
+        variant,
+        password,
         account_id: account_id.to_string(),
         folders,
         files: file_list,
@@ -578,6 +662,7 @@ async fn build(dir: &Path, backend: Backend, tier: Tier, seed: u64) -> Result<Bu
 struct World {
     dir: PathBuf,
     backend: Backend,
+    variant: u8,
     account_id: AccountId,
     target: BackendTarget,
     folders: Vec<Summary>,
@@ -587,17 +672,18 @@ struct World {
 impl World {
     /// Open a private copy: sign in once to learn the folder summaries
     /// and the canonical file set (as an application would), sign out.
-    async fn open(dir: &Path, backend: Backend, account_id: AccountId) -> Result<World> {
-        let dev = Dev::open(dir, backend, account_id, vkit::acct::password()).await?;
+    async fn open(dir: &Path, b: &Built) -> Result<World> {
+        let account_id: AccountId = b.account_id.parse()?;
+        let dev = Dev::open(dir, b.backend, account_id, secret_string(&b.password)).await?;
         let folders = dev.account.list_folders().await?;
         let files = dev.account.canonical_files().await?;
         dev.close().await;
-        Self::attach(dir, backend, account_id, folders, files).await
+        Self::attach(dir, b.backend, b.variant, account_id, folders, files).await
     }
 
-    async fn attach(dir: &Path, backend: Backend, account_id: AccountId, folders: Vec<Summary>, files: IndexSet<ExternalFile>) -> Result<World> {
+    async fn attach(dir: &Path, backend: Backend, variant: u8, account_id: AccountId, folders: Vec<Summary>, files: IndexSet<ExternalFile>) -> Result<World> {
         let target = target_for(dir, backend).await?.with_account_id(&account_id);
-        Ok(World { dir: dir.to_path_buf(), backend, account_id, target, folders, files })
+        Ok(World { dir: dir.to_path_buf(), backend, variant, account_id, target, folders, files })
     }
 
     async fn close(self) {
@@ -740,6 +826,8 @@ struct Tally {
     out_of_scope: BTreeMap<String, (u64, u64)>,
     flagged_without_complete: u64,
     samples: Vec<Value>,
+    /// (in scope evaluations, flagged, observations)
+    variant_counts: (u64, u64, u64),
 }
 
 impl Tally {
@@ -751,8 +839,16 @@ impl Tally {
         if v == "flagged" {
             e.1 += 1;
         }
+        if t.in_scope {
+            self.variant_counts.0 += 1;
+            if v == "flagged" {
+                self.variant_counts.1 += 1;
+            }
+        } else {
+            self.variant_counts.2 += 1;
+        }
         if self.samples.len() < 3 && (self.evals % 211 == 1) {
-            self.samples.push(json!({"backend": w.backend.name(), "region": t.region, "where": if t.kind == "db_cell" { format!("{}.{} row {} byte {}", t.table, t.column, t.rowid, t.offset) } else { format!("{} @ {}", t.file, t.offset) }, "mutation": mutation, "verdict": v, "report": why.chars().take(120).collect::<String>()}));
+            self.samples.push(json!({"backend": w.backend.name(), "account_variant": w.variant, "region": t.region, "where": if t.kind == "db_cell" { format!("{}.{} row {} byte {}", t.table, t.column, t.rowid, t.offset) } else { format!("{} @ {}", t.file, t.offset) }, "mutation": mutation, "verdict": v, "report": why.chars().take(120).collect::<String>()}));
         }
         if v != "flagged" && t.in_scope {
             let mut sig = format!("{}:{}:{}", w.backend.name(), t.region, v);
@@ -760,8 +856,8 @@ impl Tally {
                 sig.push(':');
                 sig.push_str(&t.detail);
             }
-            let what = format!("{} backend, {} ({}), mutation {}: {}", w.backend.name(), t.region, t.coord, mutation, why);
-            let e = self.fails.entry(sig).or_insert_with(|| (0, what, json!({"engine": "integx", "backend": w.backend, "coord": t.coord, "region": t.region, "kind": t.kind, "mutation": mutation, "target": t})));
+            let what = format!("{} backend, account variant {}, {} ({}), mutation {}: {}", w.backend.name(), w.variant, t.region, t.coord, mutation, why);
+            let e = self.fails.entry(sig).or_insert_with(|| (0, what, json!({"engine": "integx", "backend": w.backend, "variant": w.variant, "coord": t.coord, "region": t.region, "kind": t.kind, "mutation": mutation, "target": t})));
             e.0 += 1;
         }
     }
@@ -844,7 +940,7 @@ async fn evaluate(w: &World, t: &Target, only: Option<&str>, tally: &mut Tally) 
                 let wd = fsutil::WorkDir::new("integx-rm");
                 let copy = wd.path().join("acct");
                 close_and_copy(w, &copy).await?;
-                let w2 = World::attach(&copy, w.backend, w.account_id, w.folders.clone(), w.files.clone()).await?;
+                let w2 = World::attach(&copy, w.backend, w.variant, w.account_id, w.folders.clone(), w.files.clone()).await?;
                 let BackendTarget::Database(_, client) = &w2.target else { return Err(anyhow!("not a database target")) };
                 let fid = t.folder.clone().unwrap_or_default();
                 let sql = match t.region.as_str() {
@@ -905,6 +1001,7 @@ fn content_digest(dir: &Path) -> BTreeMap<String, String> {
 #[derive(Clone, Debug, Serialize, Deserialize)]
 struct Item {
     backend: Backend,
+    variant: u8,
     start: usize,
     end: usize,
 }
@@ -923,15 +1020,18 @@ fn install_panic_hook() {
 
 struct Worker {
     wd: fsutil::WorkDir,
-    worlds: BTreeMap<&'static str, std::result::Result<(World, Vec<Target>, BTreeMap<String, String>), String>>,
+    worlds: BTreeMap<String, std::result::Result<(World, Vec<Target>, BTreeMap<String, String>), String>>,
 }
 
-async fn worker_world(base: &Path, wd: &Path, backend: Backend) -> Result<(World, Vec<Target>, BTreeMap<String, String>)> {
-    let b: Built = serde_json::from_slice(&std::fs::read(base.join(format!("built-{}.json", backend.name())))?)?;
-    let copy = wd.join(format!("acct-{}", backend.name()));
+fn world_key(backend: Backend, variant: u8) -> String {
+    format!("{}-v{}", backend.name(), variant)
+}
+
+async fn worker_world(base: &Path, wd: &Path, backend: Backend, variant: u8) -> Result<(World, Vec<Target>, BTreeMap<String, String>)> {
+    let b: Built = serde_json::from_slice(&std::fs::read(base.join(format!("built-{}.json", world_key(backend, variant))))?)?;
+    let copy = wd.join(format!("acct-{}", world_key(backend, variant)));
     fsutil::copy_dir(Path::new(&b.dir), &copy)?;
-    let account_id: AccountId = b.account_id.parse()?;
-    let w = World::open(&copy, backend, account_id).await?;
+    let w = World::open(&copy, &b).await?;
     let digest = content_digest(&copy);
     // soundness on the private copy before anything is touched
     let o = run_reports(&w, None).await;
@@ -948,16 +1048,16 @@ async fn worker_world(base: &Path, wd: &Path, backend: Backend) -> Result<(World
 }
 
 async fn run_item(wk: &mut Worker, base: &Path, it: &Item) -> Value {
-    let key = it.backend.name();
-    if !wk.worlds.contains_key(key) {
-        let r = worker_world(base, wk.wd.path(), it.backend).await.map_err(|e| e.to_string());
-        wk.worlds.insert(key, r);
+    let key = world_key(it.backend, it.variant);
+    if !wk.worlds.contains_key(&key) {
+        let r = worker_world(base, wk.wd.path(), it.backend, it.variant).await.map_err(|e| e.to_string());
+        wk.worlds.insert(key.clone(), r);
     }
-    let (w, targets, digest) = match wk.worlds.get(key).unwrap() {
+    let (w, targets, digest) = match wk.worlds.get(&key).unwrap() {
         Ok(x) => x,
         Err(e) if e.starts_with("FALSE_ALARM") => {
-            return json!({"evals": 0, "nontrivial": 0, "by_region": {}, "out_of_scope": {}, "flagged_without_complete": 0, "samples": [], "t_account_us": 0, "t_file_us": 0,
-                "fails": [{"sig": format!("{}:clean_account:false_alarm", key), "count": 1, "what": e, "witness": {"engine": "integx", "backend": it.backend}}]});
+            return json!({"evals": 0, "nontrivial": 0, "by_region": {}, "out_of_scope": {}, "flagged_without_complete": 0, "samples": [], "t_account_us": 0, "t_file_us": 0, "variant_counts": [0, 0, 0],
+                "fails": [{"sig": format!("{}:clean_account:false_alarm", it.backend.name()), "count": 1, "what": format!("account variant {}: {}", it.variant, e), "witness": {"engine": "integx", "backend": it.backend, "variant": it.variant}}]});
         }
         Err(e) => return json!({"error": format!("worker setup: {}", e)}),
     };
@@ -984,6 +1084,7 @@ async fn run_item(wk: &mut Worker, base: &Path, it: &Item) -> Value {
         "flagged_without_complete": tally.flagged_without_complete,
         "fails": tally.fails.iter().map(|(k, v)| json!({"sig": k, "count": v.0, "what": v.1, "witness": v.2})).collect::<Vec<_>>(),
         "samples": tally.samples,
+        "variant_counts": [tally.variant_counts.0, tally.variant_counts.1, tally.variant_counts.2],
         "t_account_us": T_ACCOUNT_US.swap(0, Ordering::Relaxed),
         "t_file_us": T_FILE_US.swap(0, Ordering::Relaxed),
     })
@@ -993,6 +1094,7 @@ fn replay(args: &Args, path: &Path) -> ! {
     let v: Value = serde_json::from_slice(&std::fs::read(path).expect("read replay")).expect("json");
     let wit = &v["witness"];
     let backend: Backend = serde_json::from_value(wit["backend"].clone()).expect("backend");
+    let variant = wit["variant"].as_u64().unwrap_or(0) as u8;
     let coord = wit["coord"].as_str().unwrap_or("").to_string();
     let region = wit["region"].as_str().unwrap_or("").to_string();
     let mutation = wit["mutation"].as_str().unwrap_or("").to_string();
@@ -1002,13 +1104,14 @@ fn replay(args: &Args, path: &Path) -> ! {
     let mut obs = vec![];
     for round in 0..2 {
         let wd = fsutil::WorkDir::new(&format!("integx-r{}", round));
-        let b = rt.block_on(build(wd.path(), backend, args.tier, args.seed)).expect("build");
+        // thorough enumeration: the witness may name any byte of a region
+        let b = rt.block_on(build(wd.path(), backend, variant, Tier::Thorough, args.seed)).expect("build");
         let Some(t) = b.targets.iter().find(|t| t.coord == coord && t.region == region).cloned() else {
-            eprintln!("MACHINERY-ERROR replay target {} {} not found in a rebuilt account", region, coord);
+            eprintln!("MACHINERY-ERROR replay target {} {} not found in a rebuilt account (variant {})", region, coord, variant);
             std::process::exit(2);
         };
         let sigs: Vec<String> = rt.block_on(async {
-            let w = World::open(Path::new(&b.dir), backend, b.account_id.parse().unwrap()).await.expect("open");
+            let w = World::open(Path::new(&b.dir), &b).await.expect("open");
             let mut tally = Tally::default();
             let only = if t.kind == "remove" { None } else { Some(mutation.as_str()) };
             evaluate(&w, &t, only, &mut tally).await.expect("evaluate");
@@ -1046,12 +1149,14 @@ fn main() {
     }
     let mut run = Run::new("C16", "exploration", &args);
     let base = fsutil::WorkDir::new("integx-build");
-    // build both accounts (in parallel: the file encryption is slow)
+    // build all accounts (in parallel: the file encryption is slow)
     let mut handles = vec![];
-    for backend in [Backend::Fs, Backend::Db] {
-        let dir = base.path().join(format!("build-{}", backend.name()));
-        let (tier, seed) = (args.tier, args.seed);
-        handles.push(std::thread::spawn(move || rt().block_on(build(&dir, backend, tier, seed)).map_err(|e| e.to_string())));
+    for variant in 0..VARIANTS.len() as u8 {
+        for backend in [Backend::Fs, Backend::Db] {
+            let dir = base.path().join(format!("build-{}", world_key(backend, variant)));
+            let (tier, seed) = (args.tier, args.seed);
+            handles.push(std::thread::spawn(move || rt().block_on(build(&dir, backend, variant, tier, seed)).map_err(|e| format!("{}: {}", world_key(backend, variant), e))));
+        }
     }
     let mut builts = vec![];
     for h in handles {
@@ -1064,16 +1169,20 @@ fn main() {
     if !run.machinery_errors.is_empty() {
         std::process::exit(run.finish(Map::new()));
     }
+    let build_s = run.start.elapsed().as_secs_f64();
     let workers = pool::default_workers();
     let mut its: Vec<Item> = vec![];
     let total: usize = builts.iter().map(|b| b.targets.len()).sum();
     let chunk = (total / (workers * 6)).max(40);
     for b in &builts {
-        std::fs::write(base.path().join(format!("built-{}.json", b.backend.name())), serde_json::to_vec(b).unwrap()).expect("write built");
+        std::fs::write(base.path().join(format!("built-{}.json", world_key(b.backend, b.variant))), serde_json::to_vec(b).unwrap()).expect("write built");
+        // a worker pays one sign-in per world it touches: small worlds
+        // (quick tier, variants after the first) are cut into few items
+        let chunk = if b.targets.len() <= chunk * 4 { b.targets.len().div_ceil(4).max(1) } else { chunk };
         let mut s = 0;
         while s < b.targets.len() {
             let e = (s + chunk).min(b.targets.len());
-            its.push(Item { backend: b.backend, start: s, end: e });
+            its.push(Item { backend: b.backend, variant: b.variant, start: s, end: e });
             s = e;
         }
     }
@@ -1091,6 +1200,7 @@ fn main() {
     let mut samples = vec![];
     let mut by_region: BTreeMap<String, BTreeMap<String, (u64, u64)>> = BTreeMap::new();
     let mut oos: BTreeMap<String, BTreeMap<String, (u64, u64)>> = BTreeMap::new();
+    let mut per_variant: BTreeMap<String, (u64, u64, u64)> = BTreeMap::new();
     for (i, r) in res.into_iter().enumerate() {
         match r {
             pool::ItemResult::Crashed(w) => run.machinery(format!("item {:?}: {}", its[i], w)),
@@ -1104,6 +1214,10 @@ fn main() {
                 fwc += v["flagged_without_complete"].as_u64().unwrap_or(0);
                 t_acc += v["t_account_us"].as_u64().unwrap_or(0);
                 t_file += v["t_file_us"].as_u64().unwrap_or(0);
+                let pv = per_variant.entry(world_key(its[i].backend, its[i].variant)).or_default();
+                pv.0 += v["variant_counts"][0].as_u64().unwrap_or(0);
+                pv.1 += v["variant_counts"][1].as_u64().unwrap_or(0);
+                pv.2 += v["variant_counts"][2].as_u64().unwrap_or(0);
                 for (src, dst) in [("by_region", &mut by_region), ("out_of_scope", &mut oos)] {
                     if let Some(m) = v[src].as_object() {
                         for (k, c) in m {
@@ -1125,6 +1239,12 @@ fn main() {
     if evals == 0 && run.failures.is_empty() {
         run.machinery("vacuous: no mutation was evaluated");
     }
+    for b in &builts {
+        let k = world_key(b.backend, b.variant);
+        if per_variant.get(&k).map(|c| c.0).unwrap_or(0) == 0 && run.failures.is_empty() {
+            run.machinery(format!("vacuous: no mutation was evaluated on account {}", k));
+        }
+    }
     let table = |m: &BTreeMap<String, BTreeMap<String, (u64, u64)>>| -> Value {
         let mut o = Map::new();
         for (b, rs) in m {
@@ -1142,14 +1262,16 @@ fn main() {
     let mut cov = Map::new();
     cov.insert("evaluations".into(), json!(evals));
     cov.insert("distinct_nontrivial".into(), json!(nontrivial));
-    cov.insert("rule".into(), json!(format!("accounts built by real API calls on the file-system and sqlite backends (3 folders, >= 3 secrets incl. a created/updated/deleted history, one 20 KiB file secret, one small attachment). fs: every byte of every vault row's stored commit hash, encrypted meta and encrypted secret (nonce + ciphertext), of every folder event record's stored commit hash and payload, and of every external blob ({}), each changed to 3 other values (xor 0x01, xor 0x80, bitwise not); sqlite: every folder_secrets (commit_hash, meta, secret) and folder_events (commit_hash, event) cell of the account's folders at {} byte positions x 3 values, plus the blobs as for fs; removals: each folder's vault file / events file / blob (fs), folders row / folder_events rows / blob (sqlite). A case is distinct by (backend, file or row, offset, value) and non-trivial when the byte really changed and the reports ran on it (all of them; byte ranges come from the engine's own parser, cross-checked on {} records against FormatStream)", if exhaustive { "every byte" } else { "small blob: every byte; 20 KiB blob: first 64, last 64 and every 97th byte" }, if exhaustive { "all" } else { "first / middle / last" }, builts.iter().map(|b| b.cross_checked_records).sum::<u64>())));
+    cov.insert("rule".into(), json!(format!("{nv} account variants x 2 backends (file-system, sqlite), each produced by a history of real API calls ({variants}). Regions — fs: each vault row's stored commit hash, encrypted meta and encrypted secret (nonce + ciphertext), each folder event record's stored commit hash and payload, each external blob; sqlite: each folder_secrets (commit_hash, meta, secret) and folder_events (commit_hash, event) cell of the account's folders, plus the blobs; each chosen byte changed to 3 other values (xor 0x01, xor 0x80, bitwise not). Positions — {positions}. Removals (all variants, both tiers): each folder's vault file / events file / each blob (fs), folders row / folder_events rows / each blob (sqlite). A case is distinct by (backend, variant, file or row, offset, value) and non-trivial when the byte really changed and the reports ran on it (all of them; byte ranges come from the engine's own parser, cross-checked on {cross} records against FormatStream)", nv = VARIANTS.len(), variants = VARIANTS.join("; "), positions = if exhaustive { "every byte of every region on every variant" } else { "variant 0: every byte of vault rows and event records (fs), first / middle / last byte of every sqlite cell, small blob every byte, 20 KiB blob first 64 + last 64 + every 97th byte; other variants: first / middle / last byte of every region" }, cross = builts.iter().map(|b| b.cross_checked_records).sum::<u64>())));
     cov.insert("samples".into(), json!(samples));
     cov.insert("exhaustive".into(), json!(exhaustive));
     cov.insert("in_scope_regions".into(), table(&by_region));
-    cov.insert("out_of_scope_observations".into(), json!({"note": "bytes inside the hashed value that are framing (nonce size, ciphertext length), the previous-commit field of event records and removal of only the secret rows (sqlite) are not named by the property: evaluated, recorded here, never reported as failures", "regions": table(&oos)}));
+    cov.insert("out_of_scope_observations".into(), json!({"note": "bytes inside the hashed value that are framing (nonce size, ciphertext length), the previous-commit field of event records, removal of only the secret rows (sqlite), and the rows of the account's identity (login) and device folders in folder_secrets / folder_events (sqlite: account_integrity checks the folders it is given and an application gives it list_folders(), which does not contain them) are not named by the property or not covered by the report's contract: evaluated, recorded here, never reported as failures", "regions": table(&oos)}));
+    cov.insert("per_account_variant".into(), json!(builts.iter().map(|b| { let c = per_variant.get(&world_key(b.backend, b.variant)).copied().unwrap_or_default(); json!({"backend": b.backend.name(), "variant": b.variant, "history": VARIANTS[b.variant as usize], "targets": b.targets.len(), "in_scope_evaluations": c.0, "flagged": c.1, "out_of_scope_observations": c.2, "shape": b.stats}) }).collect::<Vec<_>>()));
     cov.insert("flagged_but_report_never_completed".into(), json!(fwc));
-    cov.insert("accounts".into(), json!(builts.iter().map(|b| json!({"backend": b.backend.name(), "targets": b.targets.len(), "stats": b.stats})).collect::<Vec<_>>()));
+    cov.insert("accounts".into(), json!(builts.iter().map(|b| json!({"backend": b.backend.name(), "variant": b.variant, "targets": b.targets.len(), "stats": b.stats})).collect::<Vec<_>>()));
     cov.insert("work_items".into(), json!(its.len()));
+    cov.insert("account_construction_s".into(), json!(build_s));
     cov.insert("mean_report_ms".into(), json!({"account_integrity": t_acc as f64 / 1000.0 / evals.max(1) as f64, "file_integrity": t_file as f64 / 1000.0 / evals.max(1) as f64}));
     drop(base);
     std::process::exit(run.finish(cov));
